@@ -154,8 +154,10 @@ T_OpBegin == /\ IsEvent("op_begin")
                 \* by T_Issue: in this poll of the client or - if the call first yields to the executor - in a later one, but
                 \* before the client's next observable step (it suspends for good, or the call returns).
                 /\ pend' = [pend EXCEPT ![c] = o] /\ UNCHANGED vars
-\* a call that was polled once and dropped before it had done anything at all: it never happened
-T_OpEndUnissued == /\ IsEvent("op_end") /\ E.res = "cancelled"
+\* a call that was polled once and dropped before it had done anything at all: it never happened.  Only possible when
+\* that one poll ended in a cooperative yield (`woken`: the call asked to be polled again at once); a call that is
+\* waiting for something has placed its first effect.
+T_OpEndUnissued == /\ IsEvent("op_end") /\ E.res = "cancelled" /\ "woken" \in DOMAIN E /\ E.woken
                    /\ LET c == E.task IN
                       /\ cur = c /\ pend[c] # NoOp /\ cli[c].n + 1 = E.n
                       /\ cli' = [cli EXCEPT ![c].n = @ + 1]
